@@ -19,6 +19,7 @@ type coreProfile struct {
 	forge     int // % of deliveries replaced by a forged/malformed variant
 	setmtu    int // % of ticks with a SetMtu call
 	reconf    int // % of ticks with NoDelay / WndSize calls (mid-life; not for window monitors)
+	keepMode  bool // the NoDelay calls leave the no-delay MODE alone (first argument -1): boundary B4
 	stall     int // % of cases in which one reader pauses for a while
 	fec       int // % of deliveries fed as non-regular (FEC-recovered) packets
 	bigSend   bool
@@ -254,7 +255,11 @@ func runCoreHistory(s *coreSim, rng *vrng, p coreProfile) (info coreCaseInfo) {
 			}
 			if p.reconf > 0 && rng.chance(p.reconf) {
 				if rng.chance(50) {
-					s.NoDelay(e, rng.pick(-1, 0, 1), rng.pick(-1, 0, 1, 9, 10, 11, 40, 4999, 5000, 5001, 6000), rng.pick(-1, 0, 1, 2), rng.pick(-1, 0, 1))
+					nd := rng.pick(-1, 0, 1)
+					if p.keepMode {
+						nd = rng.pick(-1, -1, -2, -1000)
+					}
+					s.NoDelay(e, nd, rng.pick(-1, 0, 1, 9, 10, 11, 40, 4999, 5000, 5001, 6000), rng.pick(-1, 0, 1, 2), rng.pick(-1, 0, 1))
 				} else {
 					s.WndSize(e, rng.pick(0, 1, 2, 32, 128), rng.pick(0, 1, 2, 32, 128))
 				}
